@@ -281,6 +281,26 @@ fn gen(seed: u64) -> (WCfg, Vec<WCmd>) {
             })
             .collect();
         let mut budget: usize = 60_000;
+        // a legitimate "bomb": megabytes of highly compressible values fit one datagram once
+        // compressed (the sender's budget is on compressed bytes), so the decoder must take them
+        let bulk = kind != 0 && kind != 3 && r.chance(0.04);
+        if bulk {
+            let n = r.range(20, 120) as usize;
+            let len = *r.pick(&[16_000u32, 40_000, 60_000]);
+            let kvs: Vec<(usize, ValSpec, u8)> = (0..n)
+                .map(|_| {
+                    ctr += 1;
+                    (5usize, ValSpec { class: 0, len, seed: (r.next() << 12) | ctr }, 0u8)
+                })
+                .collect();
+            let dm = DeltaMember { id: IdSpec { name_len: 10, generation: 0, ipv6: false, idx: 100, mapped: false }, gc: 0, from: 0, kvs, setmax: None };
+            let mut digest = digest;
+            if kind == 1 {
+                digest.push(MemberSpec { id: dm.id.clone(), hb: 3, gc: 0, mv: 0 });
+            }
+            cmds.push(WCmd::Message { kind, digest, delta: vec![dm], cluster_len: 1, plan: 0, block: 16_384 });
+            continue;
+        }
         let delta: Vec<DeltaMember> = (0..r.below(4))
             .map(|i| {
                 let nk = if r.chance(0.2) { 0 } else { r.range(1, 6) };
